@@ -704,14 +704,58 @@ impl<'a> Gen<'a> {
         }
     }
 
+    /// Application output text: printable characters, LF and CR LF only (C13's quantifier)
+    fn out_text(&mut self) -> String {
+        if self.rng.chance(1, 2) {
+            return self.rng.pick(OUT_TEXTS).to_string();
+        }
+        let n = match self.rng.below(12) {
+            0 => self.rng.range(200, 400),
+            1 | 2 => self.rng.range(13, 40),
+            _ => self.rng.range(0, 12),
+        };
+        let mut s = String::new();
+        for _ in 0..n {
+            match self.rng.below(14) {
+                0 | 1 => s.push('\n'),
+                2 => s.push_str("\r\n"),
+                3 => s.push(' '),
+                4 => s.push(*self.rng.pick(MULTI)),
+                5 => s.push(*self.rng.pick(&['$', '#', '>', ':', '-', '"', '\\', '[', 'K', '%', '{', '}'])),
+                _ => s.push(*self.rng.pick(LETTERS) as char),
+            }
+        }
+        // a CR LF split across two calls is generated by ending with CR sometimes
+        if self.rng.chance(1, 30) {
+            s.push('\r');
+        }
+        s
+    }
+
     fn writer_calls(&mut self, max: usize) -> Vec<WCall> {
         let n = self.rng.below(max + 1);
-        (0..n)
-            .map(|_| WCall {
+        let mut v: Vec<WCall> = Vec::new();
+        for _ in 0..n {
+            let mut text = self.out_text();
+            // a text that ends in a lone CR is only inside the quantifier if the next call starts with LF
+            if let Some(prev) = v.last() {
+                if prev.text.ends_with('\r') && !text.starts_with('\n') {
+                    text.insert(0, '\n');
+                }
+            }
+            v.push(WCall {
                 kind: *self.rng.pick(&WKind::ALL),
-                text: self.rng.pick(OUT_TEXTS).to_string(),
-            })
-            .collect()
+                text,
+            });
+        }
+        // no dangling CR at the very end of the output
+        if let Some(last) = v.last_mut() {
+            if last.text.ends_with('\r') {
+                last.text.push('\n');
+            }
+            // *Ln kinds append LF themselves: "x\r" + LF is CR LF, fine
+        }
+        v
     }
 
     fn app_event(&mut self, inside: bool) -> Option<Ev> {
